@@ -1,0 +1,212 @@
+//go:build verif
+
+// Contracts for package elastic, checked by /verif/gvc (see /verif/DESIGN.md, C10).
+//
+// RingBuffer: lazily acquired pooled ring; a nil ring means empty.
+// Buffer: bytes in the ring are always older than bytes in the list; the abstract view is the ring
+// view followed by the list view.
+
+package elastic
+
+//@ pred rwf(b *RingBuffer) := b != nil && (b.rb == nil || ring.wf(b.rb))
+//@ pure rcnt(b *RingBuffer) := b.rb == nil ? 0 : ring.cnt(b.rb)
+//@ pure rat(b *RingBuffer, i int) := ring.at(b.rb, i)
+//
+//@ func (b *RingBuffer) instance() (r *ring.Buffer)
+//@   requires rwf(b)
+//@   modifies b.rb
+//@   ensures r == b.rb && r != nil && ring.wf(r) && rcnt(b) == old(rcnt(b))
+//@   ensures old(b.rb) != nil ==> r == old(b.rb)
+//@   ensures old(b.rb) == nil ==> fresh(r)
+//
+//@ func (b *RingBuffer) done()
+//@   requires rwf(b)
+//@   modifies b.rb, b.rb.r if b.rb != nil, b.rb.w if b.rb != nil, b.rb.isEmpty if b.rb != nil
+//@   ensures rwf(b) && rcnt(b) == old(rcnt(b)) && (b.rb == old(b.rb) || b.rb == nil)
+//@   ensures b.rb != nil ==> unchanged(b.rb.r, b.rb.w, b.rb.isEmpty)
+//
+//@ func (b *RingBuffer) Done()
+//@   requires rwf(b)
+//@   modifies b.rb, b.rb.r if b.rb != nil, b.rb.w if b.rb != nil, b.rb.isEmpty if b.rb != nil
+//@   ensures b.rb == nil
+//
+//@ func (b *RingBuffer) Peek(n int) (head []byte, tail []byte)
+//@   requires rwf(b)
+//@   ensures len(head) + len(tail) == (n <= 0 ? rcnt(b) : min(n, rcnt(b)))
+//@   ensures forall i :: 0 <= i && i < len(head) ==> head[i] == rat(b, i)
+//@   ensures forall i :: 0 <= i && i < len(tail) ==> tail[i] == rat(b, len(head) + i)
+//@   ensures len(head) == 0 ==> len(tail) == 0
+//
+//@ func (b *RingBuffer) Discard(n int) (discarded int, err error)
+//@   requires rwf(b)
+//@   modifies b.rb, b.rb.r if b.rb != nil, b.rb.w if b.rb != nil, b.rb.isEmpty if b.rb != nil
+//@   ensures rwf(b) && discarded == (n <= 0 ? 0 : min(n, old(rcnt(b)))) && rcnt(b) == old(rcnt(b)) - discarded
+//@   ensures forall i :: 0 <= i && i < rcnt(b) ==> rat(b, i) == old(rat(b, discarded + i))
+//@   ensures old(b.rb) != nil ==> err == nil
+//@   ensures b.rb == old(b.rb) || b.rb == nil
+//
+//@ func (b *RingBuffer) Read(p []byte) (n int, err error)
+//@   requires rwf(b) && (b.rb == nil || disjoint(p, b.rb.buf))
+//@   modifies b.rb, b.rb.r if b.rb != nil, b.rb.w if b.rb != nil, b.rb.isEmpty if b.rb != nil, mem(p)
+//@   ensures rwf(b) && n == min(len(p), old(rcnt(b))) && rcnt(b) == old(rcnt(b)) - n
+//@   ensures forall i :: 0 <= i && i < n ==> p[i] == old(rat(b, i))
+//@   ensures forall i :: 0 <= i && i < rcnt(b) ==> rat(b, i) == old(rat(b, n + i))
+//@   ensures len(p) > 0 && old(rcnt(b)) > 0 ==> err == nil
+//@   ensures b.rb == old(b.rb) || b.rb == nil
+//
+//@ func (b *RingBuffer) Write(p []byte) (n int, err error)
+//@   requires rwf(b) && (b.rb == nil || disjoint(p, b.rb.buf))
+//@   modifies b.rb, b.rb.* if b.rb != nil, mem(b.rb.buf) if b.rb != nil
+//@   ensures rwf(b) && n == len(p) && err == nil && rcnt(b) == old(rcnt(b)) + len(p)
+//@   ensures forall i :: 0 <= i && i < old(rcnt(b)) ==> rat(b, i) == old(rat(b, i))
+//@   ensures forall j :: 0 <= j && j < len(p) ==> rat(b, old(rcnt(b)) + j) == p[j]
+//@   ensures old(b.rb) != nil ==> b.rb == old(b.rb)
+//@   ensures old(b.rb) == nil && len(p) > 0 ==> fresh(b.rb)
+//@   ensures old(b.rb) == nil && len(p) == 0 ==> b.rb == nil
+//@   ensures b.rb != nil && old(b.rb) != nil ==> same(b.rb.buf, old(b.rb.buf)) || fresh(b.rb.buf)
+//
+//@ func (b *RingBuffer) Buffered() int
+//@   requires rwf(b)
+//@   ensures res == rcnt(b) && res >= 0
+//
+//@ func (b *RingBuffer) Len() int
+//@   requires rwf(b)
+//@   ensures res == (b.rb == nil ? 0 : b.rb.size) && res >= 0
+//
+//@ func (b *RingBuffer) Cap() int
+//@   requires rwf(b)
+//@   ensures res == (b.rb == nil ? 0 : b.rb.size)
+//
+//@ func (b *RingBuffer) Available() int
+//@   requires rwf(b)
+//@   ensures res == (b.rb == nil ? 0 : b.rb.size - ring.cnt(b.rb)) && res >= 0
+//
+//@ func (b *RingBuffer) IsEmpty() bool
+//@   requires rwf(b)
+//@   ensures res <==> rcnt(b) == 0
+//
+//@ func (b *RingBuffer) IsFull() bool
+//@   requires rwf(b)
+//@   ensures res <==> (b.rb != nil && b.rb.size > 0 && ring.cnt(b.rb) == b.rb.size)
+//
+//@ func (b *RingBuffer) Reset()
+//@   requires rwf(b)
+//@   modifies b.rb.r if b.rb != nil, b.rb.w if b.rb != nil, b.rb.isEmpty if b.rb != nil
+//@   ensures rwf(b) && rcnt(b) == 0 && b.rb == old(b.rb)
+//
+//@ func (b *RingBuffer) Bytes() []byte
+//@   requires rwf(b)
+//@   ensures len(res) == rcnt(b)
+//@   ensures forall i :: 0 <= i && i < rcnt(b) ==> res[i] == rat(b, i)
+//@   ensures rcnt(b) > 0 ==> fresh(res)
+//
+//@ func (b *RingBuffer) ReadFrom(r io.Reader) (n int64, err error)
+//@   requires rwf(b) && r != nil
+//@   modifies b.rb, b.rb.* if b.rb != nil, mem(b.rb.buf) if b.rb != nil, rpos[ref(r)]
+//@   ensures rwf(b) && n >= 0 && n == rpos[ref(r)] - old(rpos[ref(r)]) && rcnt(b) == old(rcnt(b)) + n
+//@   ensures forall i :: 0 <= i && i < old(rcnt(b)) ==> rat(b, i) == old(rat(b, i))
+//@   ensures forall j :: 0 <= j && j < n ==> rat(b, old(rcnt(b)) + j) == rdata[ref(r)][old(rpos[ref(r)]) + j]
+//@   ensures old(b.rb) != nil ==> b.rb == old(b.rb)
+//@   ensures old(b.rb) == nil ==> fresh(b.rb)
+//@   ensures b.rb != nil && (same(b.rb.buf, old(b.rb.buf)) || fresh(b.rb.buf))
+//
+//@ func (b *RingBuffer) WriteTo(w io.Writer) (n int64, err error)
+//@   requires rwf(b) && w != nil
+//@   modifies b.rb, b.rb.r if b.rb != nil, b.rb.w if b.rb != nil, b.rb.isEmpty if b.rb != nil, wpos[ref(w)], wdata[ref(w)], wfail[ref(w)]
+//@   ensures rwf(b) && n == wpos[ref(w)] - old(wpos[ref(w)]) && 0 <= n && n <= old(rcnt(b)) && rcnt(b) == old(rcnt(b)) - n
+//@   ensures forall i :: 0 <= i && i < rcnt(b) ==> rat(b, i) == old(rat(b, n + i))
+//@   ensures forall i :: 0 <= i && i < n ==> wdata[ref(w)][old(wpos[ref(w)]) + i] == old(rat(b, i))
+//@   ensures forall i :: i < old(wpos[ref(w)]) ==> wdata[ref(w)][i] == old(wdata[ref(w)])[i]
+//@   ensures old(rcnt(b)) > 0 && !wfail[ref(w)] ==> err == nil && n == old(rcnt(b))
+//@   ensures old(wfail[ref(w)]) ==> wfail[ref(w)]
+//@   ensures old(rcnt(b)) == 0 ==> (wfail[ref(w)] <==> old(wfail[ref(w)]))
+//@   ensures err == nil ==> n == old(rcnt(b))
+//@   ensures old(rcnt(b)) == 0 ==> n == 0 && wpos[ref(w)] == old(wpos[ref(w)])
+//@   ensures b.rb == old(b.rb) || b.rb == nil
+//
+// ---- Buffer: ring first, then list --------------------------------------------------------------
+//
+//@ pred bwf(mb *Buffer) := mb != nil && mb.maxStaticBytes > 0 && rwf(mb.ringBuffer) && linkedlist.wf(mb.listBuffer) &&
+//@     (mb.ringBuffer.rb != nil ==> linkedlist.noalias(mb.listBuffer, mb.ringBuffer.rb.buf))
+//@ pure bcnt(mb *Buffer) := rcnt(mb.ringBuffer) + mb.listBuffer.bytes
+//@ pure bat(mb *Buffer, i int) := i < rcnt(mb.ringBuffer) ? rat(mb.ringBuffer, i) : lview[mb.listBuffer][i - rcnt(mb.ringBuffer)]
+//
+//@ func New(maxStaticBytes int) (mb *Buffer, err error)
+//@   ensures maxStaticBytes <= 0 ==> mb == nil && err != nil
+//@   ensures maxStaticBytes > 0 ==> err == nil && mb != nil && fresh(mb) && mb.maxStaticBytes == maxStaticBytes && mb.ringBuffer.rb == nil &&
+//@        mb.listBuffer.head == nil && mb.listBuffer.tail == nil && mb.listBuffer.size == 0 && mb.listBuffer.bytes == 0
+//
+//@ func (mb *Buffer) Buffered() int
+//@   requires bwf(mb)
+//@   arith unchecked byte counters stay far below 2^63
+//@   ensures res == bcnt(mb)
+//
+//@ func (mb *Buffer) IsEmpty() bool
+//@   requires bwf(mb)
+//@   ensures res <==> bcnt(mb) == 0
+//
+//@ func (mb *Buffer) Read(p []byte) (n int, err error)
+//@   requires bwf(mb) && linkedlist.noalias(mb.listBuffer, p) && (mb.ringBuffer.rb == nil || disjoint(p, mb.ringBuffer.rb.buf))
+//@   arith unchecked byte counters stay far below 2^63
+//@   modifies mb.ringBuffer.rb, mb.ringBuffer.rb.r if mb.ringBuffer.rb != nil, mb.ringBuffer.rb.w if mb.ringBuffer.rb != nil, mb.ringBuffer.rb.isEmpty if mb.ringBuffer.rb != nil, mem(p)
+//@   modifies mb.listBuffer.*, lnodes[mb.listBuffer], lpoff[mb.listBuffer], lview[mb.listBuffer], npos[mb.listBuffer], nown, lbufs[mb.listBuffer]
+//@   modifies-each x *linkedlist.node where linkedlist.mine(mb.listBuffer, x) :: buf, next
+//@   ensures bwf(mb) && n == min(len(p), old(bcnt(mb))) && bcnt(mb) == old(bcnt(mb)) - n
+//@   ensures forall i :: 0 <= i && i < n ==> p[i] == old(bat(mb, i))
+//@   ensures forall i :: 0 <= i && i < bcnt(mb) ==> bat(mb, i) == old(bat(mb, n + i))
+//
+//@ func (mb *Buffer) Discard(n int) (discarded int, err error)
+//@   requires bwf(mb)
+//@   arith unchecked byte counters stay far below 2^63
+//@   modifies mb.ringBuffer.rb, mb.ringBuffer.rb.r if mb.ringBuffer.rb != nil, mb.ringBuffer.rb.w if mb.ringBuffer.rb != nil, mb.ringBuffer.rb.isEmpty if mb.ringBuffer.rb != nil
+//@   modifies mb.listBuffer.*, lnodes[mb.listBuffer], lpoff[mb.listBuffer], lview[mb.listBuffer], npos[mb.listBuffer], nown, lbufs[mb.listBuffer]
+//@   modifies-each x *linkedlist.node where linkedlist.mine(mb.listBuffer, x) :: buf, next
+//@   ensures bwf(mb) && discarded == (n <= 0 ? 0 : min(n, old(bcnt(mb)))) && bcnt(mb) == old(bcnt(mb)) - discarded
+//@   ensures forall i :: 0 <= i && i < bcnt(mb) ==> bat(mb, i) == old(bat(mb, discarded + i))
+//
+//@ func (mb *Buffer) Write(p []byte) (n int, err error)
+//@   requires bwf(mb) && (mb.ringBuffer.rb == nil || disjoint(p, mb.ringBuffer.rb.buf))
+//@   arith unchecked byte counters stay far below 2^63
+//@   modifies mb.ringBuffer.rb, mb.ringBuffer.rb.* if mb.ringBuffer.rb != nil, mem(mb.ringBuffer.rb.buf) if mb.ringBuffer.rb != nil
+//@   modifies mb.listBuffer.*, lnodes[mb.listBuffer], lpoff[mb.listBuffer], lview[mb.listBuffer], npos[mb.listBuffer], nown, lbufs[mb.listBuffer]
+//@   modifies-each x *linkedlist.node where linkedlist.mine(mb.listBuffer, x) :: next
+//@   ensures bwf(mb) && n == len(p) && err == nil && bcnt(mb) == old(bcnt(mb)) + len(p)
+//@   ensures forall i :: 0 <= i && i < old(bcnt(mb)) ==> bat(mb, i) == old(bat(mb, i))
+//@   ensures forall j :: 0 <= j && j < len(p) ==> bat(mb, old(bcnt(mb)) + j) == p[j]
+//
+//@ func (mb *Buffer) ReadFrom(r io.Reader) (n int64, err error)
+//@   requires bwf(mb) && r != nil
+//@   arith unchecked byte counters stay far below 2^63
+//@   modifies mb.ringBuffer.rb, mb.ringBuffer.rb.* if mb.ringBuffer.rb != nil, mem(mb.ringBuffer.rb.buf) if mb.ringBuffer.rb != nil, rpos[ref(r)]
+//@   modifies mb.listBuffer.*, lnodes[mb.listBuffer], lpoff[mb.listBuffer], lview[mb.listBuffer], npos[mb.listBuffer], nown, lbufs[mb.listBuffer]
+//@   modifies-each x *linkedlist.node where linkedlist.mine(mb.listBuffer, x) :: next
+//@   ensures bwf(mb) && n >= 0 && n == rpos[ref(r)] - old(rpos[ref(r)]) && bcnt(mb) == old(bcnt(mb)) + n
+//@   ensures forall i :: 0 <= i && i < old(bcnt(mb)) ==> bat(mb, i) == old(bat(mb, i))
+//@   ensures forall j :: 0 <= j && j < n ==> bat(mb, old(bcnt(mb)) + j) == rdata[ref(r)][old(rpos[ref(r)]) + j]
+//
+//@ func (mb *Buffer) WriteTo(w io.Writer) (n int64, err error)
+//@   requires bwf(mb) && w != nil
+//@   arith unchecked byte counters stay far below 2^63
+//@   modifies mb.ringBuffer.rb, mb.ringBuffer.rb.r if mb.ringBuffer.rb != nil, mb.ringBuffer.rb.w if mb.ringBuffer.rb != nil, mb.ringBuffer.rb.isEmpty if mb.ringBuffer.rb != nil, wpos[ref(w)], wdata[ref(w)], wfail[ref(w)]
+//@   modifies mb.listBuffer.*, lnodes[mb.listBuffer], lpoff[mb.listBuffer], lview[mb.listBuffer], npos[mb.listBuffer], nown, lbufs[mb.listBuffer]
+//@   modifies-each x *linkedlist.node where linkedlist.mine(mb.listBuffer, x) :: buf, next
+//@   ensures bwf(mb) && n == wpos[ref(w)] - old(wpos[ref(w)]) && 0 <= n && n <= old(bcnt(mb)) && bcnt(mb) == old(bcnt(mb)) - n
+//@   ensures forall i :: 0 <= i && i < bcnt(mb) ==> bat(mb, i) == old(bat(mb, n + i))
+//@   ensures forall i :: 0 <= i && i < n ==> wdata[ref(w)][old(wpos[ref(w)]) + i] == old(bat(mb, i))
+//@   ensures forall i :: i < old(wpos[ref(w)]) ==> wdata[ref(w)][i] == old(wdata[ref(w)])[i]
+//@   ensures old(bcnt(mb)) > 0 && !wfail[ref(w)] ==> err == nil && n == old(bcnt(mb))
+//@   ensures err == nil ==> n == old(bcnt(mb))
+//
+//@ func (mb *Buffer) Reset(maxStaticBytes int)
+//@   requires bwf(mb)
+//@   modifies mb.maxStaticBytes, mb.ringBuffer.rb.r if mb.ringBuffer.rb != nil, mb.ringBuffer.rb.w if mb.ringBuffer.rb != nil, mb.ringBuffer.rb.isEmpty if mb.ringBuffer.rb != nil
+//@   modifies mb.listBuffer.*, lnodes[mb.listBuffer], lpoff[mb.listBuffer], lview[mb.listBuffer], npos[mb.listBuffer], nown, lbufs[mb.listBuffer]
+//@   modifies-each x *linkedlist.node where linkedlist.mine(mb.listBuffer, x) :: buf, next
+//@   ensures bwf(mb) && bcnt(mb) == 0
+//
+//@ func (mb *Buffer) Release()
+//@   requires bwf(mb)
+//@   modifies mb.ringBuffer.rb, mb.ringBuffer.rb.r if mb.ringBuffer.rb != nil, mb.ringBuffer.rb.w if mb.ringBuffer.rb != nil, mb.ringBuffer.rb.isEmpty if mb.ringBuffer.rb != nil
+//@   modifies mb.listBuffer.*, lnodes[mb.listBuffer], lpoff[mb.listBuffer], lview[mb.listBuffer], npos[mb.listBuffer], nown, lbufs[mb.listBuffer]
+//@   modifies-each x *linkedlist.node where linkedlist.mine(mb.listBuffer, x) :: buf, next
+//@   ensures bwf(mb) && bcnt(mb) == 0 && mb.ringBuffer.rb == nil
